@@ -20,6 +20,7 @@
 
 
 #include <cstring>
+#include <limits>
 
 
 
@@ -554,7 +555,10 @@ ElemNumber::getCountString(
         if (DoubleSupport::isNaN(theValue) == true ||
             DoubleSupport::isPositiveInfinity(theValue) == true ||
             DoubleSupport::isNegativeInfinity(theValue) == true ||
-            DoubleSupport::lessThan(theValue, 0.5) == true)
+            DoubleSupport::lessThan(theValue, 0.5) == true ||
+            // A value that CountType cannot hold cannot be formatted as an
+            // integer (and converting it would be undefined behavior).
+            theValue >= static_cast<double>(std::numeric_limits<CountType>::max()))
         {
             NumberToDOMString(theValue, theResult);
         }
